@@ -83,3 +83,24 @@ Print Assumptions C14_intersect_overlap_is_set_intersection.
 Theorem C14_intersect_disjoint_takes_new : forall old new, check_intersection old new = false -> intersect old new = new.
 Proof. exact intersect_disjoint. Qed.
 Print Assumptions C14_intersect_disjoint_takes_new.
+
+(* the regenerated constructors: a fresh rectangle is the box [-1e12, 1e12]^dim (a proper box), given bounds are kept exactly
+   after the dimension and lower <= upper guards, and a fixed design space starts with one fresh region per design *)
+From VOPy Require ExtraRefine2.
+From VOPyGen Require Gen_extra2.
+Theorem C14_initial_regions : forall dim,
+  (forall lower upper, Gen_extra2.gen_rect_init dim None = Some (lower, upper) ->
+      length lower = dim /\ length upper = dim /\ forall k, (k < dim)%nat -> nth k lower 0 < nth k upper 0) /\
+  (forall lower upper r, Gen_extra2.gen_rect_init dim (Some (lower, upper)) = Some r ->
+      r = (lower, upper) /\ length lower = dim /\ length upper = dim /\ forall lu, In lu (combine lower upper) -> fst lu <= snd lu) /\
+  (forall (A : Type) (fresh : A) points,
+      length (fst (Gen_extra2.gen_fixed_space_init A fresh points)) = length points /\
+      snd (Gen_extra2.gen_fixed_space_init A fresh points) = length points /\
+      forall r, In r (fst (Gen_extra2.gen_fixed_space_init A fresh points)) -> r = fresh).
+Proof.
+  intros dim. split; [|split].
+  - exact (ExtraRefine2.gen_rect_init_default dim).
+  - exact (ExtraRefine2.gen_rect_init_given dim).
+  - exact ExtraRefine2.gen_fixed_space_init_spec.
+Qed.
+Print Assumptions C14_initial_regions.
